@@ -19,8 +19,10 @@ import time
 ROOT = os.path.dirname(os.path.dirname(os.path.abspath(__file__)))
 CACHE = os.path.join(ROOT, ".cache")
 SCRATCH = os.path.join(CACHE, "scratch-obs")
-REPO = "/repo"
-REPO_TARGET = os.path.join(CACHE, "target-repo")
+# SV_REPO_OVERRIDE is a test hook (mutation experiments on a scratch copy of the
+# repository); without it the exporter is always built from /repo.
+REPO = os.environ.get("SV_REPO_OVERRIDE", "/repo")
+REPO_TARGET = os.path.join(CACHE, "target-repo" if REPO == "/repo" else "scratch-obs/target-fixed")
 EXPORTER = os.path.join(REPO_TARGET, "debug", "statime-metrics-exporter")
 
 CLK_TCK = os.sysconf("SC_CLK_TCK")
